@@ -32,18 +32,18 @@ package filehandler
 //@ noterm the reader stage runs until its source fails for good (end of file beyond the tolerance or another error); that the source eventually does is a hypothesis of C09/C13
 //@ let c0 = gc("rdbytes", reader)
 //@ let k0 = gc("rdcalls", reader)
-//@ requires[C13] handler.Config.TimeoutOnEOFMilliSeconds <= 1<<40 && handler.Config.WaitTimeOnEOFMilliseconds <= 1<<40
+//@ requires[C13,C09] handler.Config.TimeoutOnEOFMilliSeconds <= 1<<40 && handler.Config.WaitTimeOnEOFMilliseconds <= 1<<40
 //@ let tol = handler.Config.TimeoutOnEOFMilliSeconds * 1000000
 //@ modifies handler.RTCMHandler, gc("rdbytes", reader), gc("rdcalls", reader), gc("clock", 0), closed(handler.MessageChan)
 //@ ensures[C13,C09] result != nil && closed(byteChan)
 //@ ensures[C13,C09] sentn(byteChan) == gc("rdbytes", reader) - c0 && forall(k, 0, sentn(byteChan), sent(byteChan)[k] == rin(reader)[c0 + k])
 //@ ensures[C13] gc("rdcalls", reader) > k0 && result == rdErr(reader, gc("rdcalls", reader) - 1)
 //@ ensures[C13] forall(k, k0, gc("rdcalls", reader) - 1, rdErr(reader, k) == nil || tolerated(rdErr(reader, k)))
-//@ ensures[C13] tolerated(result) && tol > 0 ==> forall(j, k0, gc("rdcalls", reader), runStart(reader, j, k0, gc("rdcalls", reader)) ==> gc("clock", 0) - rdClock(reader, j) > tol)
+//@ ensures[C13,C09] tolerated(result) && tol > 0 ==> forall(j, k0, gc("rdcalls", reader), runStart(reader, j, k0, gc("rdcalls", reader)) ==> gc("clock", 0) - rdClock(reader, j) > tol)
 //@ loop 1
-//@ invariant[C13] forall(j, k0, gc("rdcalls", reader), rdClock(reader, j) <= gc("clock", 0))
-//@ invariant[C13] timeOfFirstEOF != nil ==> gc("rdcalls", reader) > k0 && rdN(reader, gc("rdcalls", reader) - 1) == 0
-//@ invariant[C13] timeOfFirstEOF != nil ==> forall(j, k0, gc("rdcalls", reader), runStart(reader, j, k0, gc("rdcalls", reader)) ==> (*timeOfFirstEOF).ns >= rdClock(reader, j))
+//@ invariant[C13,C09] forall(j, k0, gc("rdcalls", reader), rdClock(reader, j) <= gc("clock", 0))
+//@ invariant[C13,C09] timeOfFirstEOF != nil ==> gc("rdcalls", reader) > k0 && rdN(reader, gc("rdcalls", reader) - 1) == 0
+//@ invariant[C13,C09] timeOfFirstEOF != nil ==> forall(j, k0, gc("rdcalls", reader), runStart(reader, j, k0, gc("rdcalls", reader)) ==> (*timeOfFirstEOF).ns >= rdClock(reader, j))
 //@ invariant[C13,C09] byteChan != nil && fresh(byteChan) && !closed(byteChan) && gc("rdcalls", reader) >= k0
 //@ invariant[C13,C09] sentn(byteChan) == gc("rdbytes", reader) - c0 && forall(k, 0, sentn(byteChan), sent(byteChan)[k] == rin(reader)[c0 + k])
 //@ invariant[C13] forall(k, k0, gc("rdcalls", reader), rdErr(reader, k) == nil || tolerated(rdErr(reader, k)))
